@@ -163,7 +163,7 @@ def ob_optionkey_order():
         K = M.O.OptionKey
         def mk(t):
             sp = [None, '', 'a', 'b'][choose(4, t + 'sub')]
-            return K(sym_str(1, t + 'name', alphabet='abc'), sp, [MachineChoice.HOST, MachineChoice.BUILD][choose(2, t + 'machine')])
+            return K(sym_str(1, t + 'name', alphabet='abA'), sp, [MachineChoice.HOST, MachineChoice.BUILD][choose(2, t + 'machine')])
         a, b = mk('a'), mk('b')
         lt, gt, le, ge, e = decide(bt_any(a < b)), decide(bt_any(a > b)), decide(bt_any(a <= b)), decide(bt_any(a >= b)), decide(bt_any(a == b))
         check((lt, e, gt).count(True) == 1, 'exactly one of <, ==, > holds')
@@ -494,7 +494,7 @@ def obligations(tier):
                        labels=('kept', 'replaced', 'substituted', 'verbatim'), max_paths=2000000),
             Obligation('buildoptions-order', ob_buildoptions(), dict(options='b_lto b_ndebug b_pie, symbolic values; compiler options c_std c_args cpp_std cpp_args', insertion_order='every permutation of the base options; both language orders, both option orders'), labels=('done',)),
             Obligation('ninja-deps-order', ob_ninja_order(), dict(deps='4: a, ./a, one symbolic of 3 chars over a . /, one of 1 char', orderdeps='3 (1 symbolic)', insertion_order='every permutation of both'), labels=('done',), max_paths=2000000),
-            Obligation('optionkey-order', ob_optionkey_order(), dict(keys='2: name 1 char over abc, subproject None | "" | a | b, machine host | build'), labels=('done',)),
+            Obligation('optionkey-order', ob_optionkey_order(), dict(keys='2: name 1 char over a b A (a name may differ in case only), subproject None | "" | a | b, machine host | build'), labels=('done',)),
             Obligation('env-hash-order', ob_env_hash(), dict(variables='2 set + 2 unset, distinct symbolic names', order='every permutation'), labels=('done',)),
             Obligation('regen-filelist-order', ob_regen_filelist(), dict(real='Backend.get_regen_filelist', machine_files='1-2 cross + 1-2 native, distinct symbolic names', set_order='adversarial permutation'), labels=('done',)),
             Obligation('pkgconfig-reqs-order', ob_pkgconfig_reqs(), dict(real='modules.pkgconfig.DependenciesHelper.add_version_reqs / format_reqs / format_vreq', constraints='2-3 on one package (symbolic digits), added in one or two calls', set_order='adversarial permutation'), labels=('done',)),
